@@ -475,7 +475,77 @@ def relative_now_rule(ctx, chk, rule):
            file=fr.file, function=fr.qual, line=fr.node.lineno)
 
 
+TZ_APPLIERS = ("apply_timezone_from_settings", "apply_timezone", "localize_timezone")
+FIELD_SETTERS = ("set_correct_day_from_settings", "set_correct_month_from_settings")
+CAL_KW = {"year", "month", "day", "hour", "minute", "second", "microsecond"}
+
+
+def r4(ctx, chk):
+    """the zone is applied to the final wall clock: after a value has been interpreted in / converted to a zone, its calendar
+    fields are not edited any more (a pytz zone attached to 1900-..-.. keeps that year's offset when the year is replaced)"""
+    rule = "C12.R4"
+    n_app = 0
+    for key in ("dateparser.date:parse_with_formats", "dateparser.date:get_date_from_timestamp", "dateparser.date_parser:DateParser.parse"):
+        f = ctx.ix.func(key)
+        g = CFG(f.node)
+        apps = []
+        for s_ in iter_own_stmts(f.node.body):
+            if isinstance(s_, ast.Assign) and isinstance(s_.value, ast.Call) and isinstance(s_.targets[0], ast.Name):
+                fn = ast.unparse(s_.value.func)
+                if fn in TZ_APPLIERS or fn.endswith(".localize") or (fn.endswith(".replace") and any(
+                        k.arg == "tzinfo" and ast.unparse(k.value) != "None" for k in s_.value.keywords)):
+                    apps.append(s_)
+        n_app += len(apps)
+        for a in apps:
+            var = a.targets[0].id
+            # nodes reachable from the application without passing a fresh binding of the variable
+            kills = set()
+            for s_ in iter_own_stmts(f.node.body):
+                if isinstance(s_, ast.Assign) and s_ is not a and any(isinstance(t, ast.Name) and t.id == var for t in s_.targets) \
+                        and var not in {x.id for x in ast.walk(s_.value) if isinstance(x, ast.Name)}:
+                    kills |= set(g.nodes_of(s_))
+                elif isinstance(s_, ast.Assign) and any(isinstance(t, ast.Tuple) and any(isinstance(e, ast.Name) and e.id == var for e in t.elts) for t in s_.targets):
+                    kills |= set(g.nodes_of(s_))
+            after = set()
+            work = [q for x in g.nodes_of(a) for q, lbl in g.succ[x]]
+            while work:
+                x = work.pop()
+                if x in after:
+                    continue
+                after.add(x)
+                if x in kills:
+                    continue
+                work.extend(q for q, lbl in g.succ[x])
+            after -= kills
+            for s_ in iter_own_stmts(f.node.body):
+                if s_ is a or not (set(g.nodes_of(s_)) & after) or not isinstance(s_, (ast.Assign, ast.AugAssign)):
+                    continue
+                tg = s_.targets[0] if isinstance(s_, ast.Assign) else s_.target
+                if not (isinstance(tg, ast.Name) and tg.id == var):
+                    continue
+                v = s_.value
+                edits = None
+                if isinstance(s_, ast.AugAssign):
+                    edits = "arithmetic on the zoned value"
+                elif isinstance(v, ast.Call) and ast.unparse(v.func) in FIELD_SETTERS:
+                    edits = ast.unparse(v.func)
+                elif isinstance(v, ast.Call) and isinstance(v.func, ast.Attribute) and v.func.attr == "replace" \
+                        and {k.arg for k in v.keywords} & CAL_KW:
+                    edits = "replace(%s=...)" % ", ".join(sorted({k.arg for k in v.keywords} & CAL_KW))
+                elif isinstance(v, ast.BinOp) and isinstance(v.op, (ast.Add, ast.Sub)) and var in {x.id for x in ast.walk(v) if isinstance(x, ast.Name)}:
+                    edits = "arithmetic on the zoned value"
+                if edits:
+                    chk.ob(rule, "%s: no calendar field of `%s` is edited after the zone was applied at line %d" % (f.qual, var, a.lineno), False,
+                           "%s runs after `%s`: the zone (and its offset) was chosen for the earlier wall clock, so the result is not the "
+                           "instant the string denotes in that zone" % (edits, " ".join(ast.unparse(a).split())[:70]),
+                           key={"function": key, "construct": "field edit after zone application: " + edits}, file=f.file, function=f.qual,
+                           line=s_.lineno, text=" ".join(ast.unparse(s_).split())[:100])
+            chk.ob(rule, "%s: `%s` is the last edit of the value's wall clock" % (f.qual, " ".join(ast.unparse(a).split())[:60]), True)
+    chk.floor(rule, n_app, 4, "zone applications in the helper, timestamp and absolute pipelines")
+
+
 def run(ctx, chk):
+    r4(ctx, chk)
     awareness_table(ctx, chk, "C12.R1")
     chk.floor("C12.R1", chk.instances.get("C12.R1", 0), 15, "awareness truth-table rows")
     r2(ctx, chk)
